@@ -1,7 +1,7 @@
 """C12 - the hash cache never changes results."""
 import re
 from . import register
-from ..analysis import (backslice, aggregates, agg_field, comparisons, branch_of, dominated_region, direct_def, base_named_local,
+from ..analysis import (direct_field, backslice, aggregates, agg_field, comparisons, branch_of, dominated_region, direct_def, base_named_local,
                         switch_on_result_of, return_variants_from)
 from ..facts import op_local, const_val
 
@@ -83,11 +83,50 @@ def r1(ctx):
                 s = fh[0][1]
                 ok = ok and any(nc.local_name(p) == 'algorithm' for p in backslice(nc, [agg_field(s, 'algorithm')]).params) and any(nc.local_name(p) == 'transform' for p in backslice(nc, [agg_field(s, 'transform')]).params)
         ctx.check(ok, rule, nc.path, nc.where(), 'the cache is opened for the hasher\'s own algorithm and transform command', 'the cache is opened with a different algorithm/transform than the hasher uses')
-    # result-affecting fields of Transform that are not part of the tree id
-    tr = lib.adts.get('transform::Transform')
-    if tr:
-        extra = [f for f, _ in tr['variants'][0]['fields'] if f in ('in_place', 'copy')]
-        ctx.note(rule, '-', 'Transform.%s are not part of the cache tree id (debatable whether they belong to "the transform"); reported as a note only' % ','.join(extra))
+    # fields of Transform that select WHICH stream is hashed (they guard the construction of an Output variant in make_args)
+    # are part of what "the transform" is: the cache identity must depend on them
+    ma = lib.body('transform::Transform::make_args')
+    if ma is None or nc is None:
+        ctx.missing(rule, 'Transform::make_args / new_cached')
+        return
+    selecting = set()
+    for bi, st in aggregates(ma, 'transform::Output'):
+        for d in ma.dominators()[bi]:
+            t = ma.blocks[d]['term']
+            if t['k'] == 'switch':
+                df = direct_field(ma, t['op'])
+                if df and not all(ma.dominates(x, bi) for x in dict.fromkeys(t['tgts']) if ma.blocks[x]['term']['k'] != 'unreach'):
+                    selecting.add(df[0])
+    ctx.floor(rule, 'Transform fields that select the hashed stream (make_args)', len(selecting), 1, ma.where())
+    od = nc.calls(r'HashCache::open_default$')
+    covered = set()
+    if od:
+        a0 = backslice(nc, [od[0].args[0]])
+        covered |= set(a0.field_names())
+        for c in a0.calls:
+            for a in c.args:
+                l = op_local(a)
+                cp = lib.closure_of_type(nc.local_ty(l)) if l is not None else None
+                cb = lib.body(cp) if cp else None
+                if cb is not None:
+                    for blk in cb.blocks:
+                        for st in blk['stmts']:
+                            pl = st['rv'].get('p')
+                            if pl:
+                                covered |= {e[2] for e in pl[1] if isinstance(e, list) and e[0] == 'F'}
+                            for o in [st['rv'].get('op')] + list(st['rv'].get('ops') or []):
+                                pp = (o.get('c') or o.get('m')) if isinstance(o, dict) else None
+                                if pp:
+                                    covered |= {e[2] for e in pp[1] if isinstance(e, list) and e[0] == 'F'}
+                        t = blk['term']
+                        if t['k'] == 'switch':
+                            pp = t['op'].get('c') or t['op'].get('m')
+                            if pp:
+                                covered |= {e[2] for e in pp[1] if isinstance(e, list) and e[0] == 'F'}
+    missing = sorted(selecting - covered)
+    ctx.check(not missing, rule, nc.path + '|identity-covers-mode', (od[0].where() if od else nc.where()), 'the cache identity depends on %s' % sorted(selecting | {'command_str'}),
+              'Transform.%s decides which stream is hashed (make_args builds a different Output under it) but is not part of the cache identity (tree id = algorithm + command string): a run with '
+              'the flag is served the hashes cached by a run without it - `--cache --transform "sed -i s/x/y/ $IN"` followed by the same with --in-place reports three different files as one group' % ', '.join(missing))
 
 
 def r2(ctx):
